@@ -232,7 +232,7 @@ VALID_LINES = ["HTTP/1.1 101 Switching Protocols", "Upgrade: websocket", "Connec
 def handshake_cases(draw):
     lines = list(VALID_LINES)
     mut = draw(st.sampled_from(["none", "status-line", "status-code", "no-colon", "non-utf8", "content-length", "redirect", "truncate",
-                                "raw", "bare-lf", "long-line", "dup-header", "empty-first", "nul", "set-cookie"]))
+                                "raw", "bare-lf", "long-line", "dup-header", "empty-first", "nul", "set-cookie", "header-values"]))
     eol = "\r\n"
     if mut == "status-line":
         lines[0] = draw(st.sampled_from(["HTTP/1.1", "HTTP/1.1 ", " ", "101", "101 OK", "HTTP/1.1101", "HTTP/1.1  101", "\t", "HTTP/1.1 101", "HTTP/1.1\t101\tOK", "GET / HTTP/1.1"]))
@@ -264,6 +264,14 @@ def handshake_cases(draw):
         i = draw(st.integers(0, len(lines) - 1))
         j = draw(st.integers(0, len(lines[i])))
         lines[i] = lines[i][:j] + draw(st.sampled_from(["\x00", "\r", "\x0b", "\x85", " ", ":", " "])) + lines[i][j:]
+    elif mut == "header-values":
+        # syntactically fine 101 response whose header *values* are unusual (non-ASCII, empty, symbols)
+        weird = st.sampled_from(["é", "$ACCEPT$é", "＝", "😀", "", "=", "\x7f", "websocket\u00a0", "ÜPGRADE", "ｗebsocket", "a" * 300, "\u0130", "ß", "𝔘pgrade"])
+        i = draw(st.integers(1, 3))
+        name = lines[i].split(":")[0]
+        lines[i] = f"{name}: {draw(weird)}"
+        if draw(st.booleans()):
+            lines.append("Sec-WebSocket-Protocol: " + draw(weird))
     elif mut == "set-cookie":
         lines.append("Set-Cookie: " + draw(st.text(alphabet="ab=;, \"\\Domain.%", max_size=24)))
     data = (eol.join(lines) + eol + eol).encode("utf-8", "surrogateescape")
